@@ -128,10 +128,12 @@ hasperr:
 		case db.writeLockC <- struct{}{}:
 			// Hold write lock, so that write won't pass-through.
 			db.compWriteLocking = true
+			verifTrace(db.s, "ce:lock")
 		case <-db.closeC:
 			if db.compWriteLocking {
 				// We should release the lock or Close will hang.
 				<-db.writeLockC
+				verifTrace(db.s, "ce:unlock")
 			}
 			return
 		}
@@ -261,6 +263,8 @@ func (db *DB) compactionExitTransact() {
 func (db *DB) compactionCommit(name string, rec *sessionRecord) {
 	db.compCommitLk.Lock()
 	defer db.compCommitLk.Unlock() // Defer is necessary.
+	verifTrace(db.s, "cl:lock", 0)
+	defer verifTrace(db.s, "cl:unlock", 0)
 	db.compactionTransactFunc(name+"@commit", func(cnt *compactionTransactCounter) error {
 		return db.s.commit(rec, true)
 	}, nil)
@@ -319,10 +323,12 @@ func (db *DB) memCompaction() {
 	rec.setJournalNum(db.journalFd.Num)
 	rec.setSeqNum(db.frozenSeq)
 
+	verifGate(db.s, "f:before-commit")
 	// Commit.
 	stats.startTimer()
 	db.compactionCommit("memdb", rec)
 	stats.stopTimer()
+	verifGate(db.s, "f:after-commit")
 
 	db.logf("memdb@flush committed F·%d T·%v", len(rec.addedTables), stats.duration)
 
@@ -333,6 +339,7 @@ func (db *DB) memCompaction() {
 	db.compStats.addStat(flushLevel, stats)
 	atomic.AddUint32(&db.memComp, 1)
 
+	verifGate(db.s, "f:after-drop")
 	// Drop frozen memdb.
 	db.dropFrozenMem()
 
@@ -561,6 +568,7 @@ func (db *DB) tableCompaction(c *compaction, noTrivial bool) {
 	if !noTrivial && c.trivial() {
 		t := c.levels[0][0]
 		db.logf("table@move L%d@%d -> L%d", c.sourceLevel, t.fd.Num, c.sourceLevel+1)
+		verifCompaction(db, c, 0, true)
 		rec.delTable(c.sourceLevel, t.fd.Num)
 		rec.addTableFile(c.sourceLevel+1, t)
 		db.compactionCommit("table-move", rec)
@@ -578,6 +586,7 @@ func (db *DB) tableCompaction(c *compaction, noTrivial bool) {
 	sourceSize := stats[0].read + stats[1].read
 	minSeq := db.minSeq()
 	db.logf("table@compaction L%d·%d -> L%d·%d S·%s Q·%d", c.sourceLevel, len(c.levels[0]), c.sourceLevel+1, len(c.levels[1]), shortenb(sourceSize), minSeq)
+	verifCompaction(db, c, minSeq, false)
 
 	b := &tableCompactionBuilder{
 		db:        db,
@@ -591,10 +600,12 @@ func (db *DB) tableCompaction(c *compaction, noTrivial bool) {
 	}
 	db.compactionTransact("table@build", b)
 
+	verifGate(db.s, "tc:before-commit")
 	// Commit.
 	stats[1].startTimer()
 	db.compactionCommit("table", rec)
 	stats[1].stopTimer()
+	verifGate(db.s, "tc:after-commit")
 
 	resultSize := stats[1].write
 	db.logf("table@compaction committed F%s S%s Ke·%d D·%d T·%v", sint(len(rec.addedTables)-len(rec.deletedTables)), sshortenb(resultSize-sourceSize), b.kerrCnt, b.dropCnt, stats[1].duration)
